@@ -170,6 +170,15 @@ def check_sequences(res: Result, seqs, roundtrip_every):
                     res.violation({"clause": "rust_runtime_flag_api", "written": name, "wrong": bad[:4]}, case,
                                   {"step": i, "value": val, "got": fa, "want": want})
                     break
+            aa = rout.get("acc_after", [None] * (i + 1))[i]
+            if aa is not None:
+                # the dedicated PC accessors pc()/set_pc() are another way of naming PC: same 20 bits
+                res.monitor("rust_pc_accessors")
+                if aa["regs"] != want or aa["pc_by_name"] != ref.get("PC"):
+                    res.violation({"clause": "rust_pc_accessors", "written": name}, case,
+                                  {"step": i, "value": val, "pc()": aa["regs"][10], "get_reg(PC)": aa["pc_by_name"],
+                                   "want": ref.get("PC")})
+                    break
             res.monitor("python_vs_rust")
             if roundtrip_every and (i + 1) % roundtrip_every == 0:
                 # Python snapshot -> fresh
